@@ -78,7 +78,9 @@ def run(ctx: Ctx):
             if not r:
                 raise AnalysisError(f"C10: cannot resolve {cn} in the chunk worker")
             b = bind_args(c, r[0][-1], r[1])
-            got = {p.name: u(a) for p, a, _ in b.pairs}
+            from sa.inline import Inliner as _Inl
+            inl_w = _Inl(work.node)
+            got = {p.name: inl_w.text(a) for p, a, _ in b.pairs}
             seen.add(cn)
             for k, v in ctor_want[cn].items():
                 col.ob("G1", "S1", f"command_line.py::{work.qualname}::{cn}({k}<-{got.get(k)})", got.get(k) == v,
@@ -146,6 +148,8 @@ def run(ctx: Ctx):
     # ---- S4 containment / overlap predicates ------------------------------------------------------------------
     refs_names = {ch.params[0].name}
     preds: Dict[bool, Set[Tuple[str, str, str]]] = {}
+    from sa.inline import Inliner
+    inl_ch = Inliner(ch.node)
     for n in own_nodes(ch.node):
         if isinstance(n, ast.Assign) and isinstance(n.targets[0], ast.Name):
             gs = guards_of(pm, n)
@@ -155,17 +159,18 @@ def run(ctx: Ctx):
             t, polr = flag[-1]
             is_partial = (u(t) == "partial") == polr
             cs = set()
-            for x in ast.walk(n.value):
+            for x in ast.walk(inl_ch.expand(n.value)):
                 if isinstance(x, ast.Compare) and len(x.ops) == 1:
                     a = _col_role(x.left, refs_names, slices_name)
                     b = _col_role(x.comparators[0], refs_names, slices_name)
                     o = {ast.Lt: "<", ast.LtE: "<=", ast.Gt: ">", ast.GtE: ">="}.get(type(x.ops[0]))
-                    if a and b and o:
+                    if a and b and o and (a.startswith("tok") != b.startswith("tok")):
                         if a.startswith("tok"):
                             a, b = b, a
                             o = {"<": ">", "<=": ">=", ">": "<", ">=": "<="}[o]
                         cs.add((a, o, b))
-            preds[is_partial] = cs
+            if cs:
+                preds[is_partial] = preds.get(is_partial, set()) | cs
     want = {True: {("slice_start", "<", "tok_end"), ("slice_end", ">", "tok_start")},
             False: {("slice_start", "<=", "tok_start"), ("slice_end", ">=", "tok_end")}}
     for k in (True, False):
@@ -187,6 +192,9 @@ def run(ctx: Ctx):
     base_ok = any(isinstance(n, ast.Assign) and _base(n.value) for n in own_nodes(ch.node))
     # ... on every path: the mask that enters the slice test carries the exclusion whichever arm built it
     rdc = ReachingDefs(ch.node)
+    from sa.astutil import enclosing_stmt as _es
+    pm_ch = parent_map(ch.node)
+    enclosing_stmt_ = lambda n_: _es(pm_ch, n_)
 
     def _carries(d, depth=0):
         if d.value is None or depth > 6:
@@ -202,23 +210,25 @@ def run(ctx: Ctx):
                 conj.append(e)
         flat(d.value)
         return any(isinstance(x, ast.Name) and rdc.defs_of(x) and all(_carries(d2, depth + 1) for d2 in rdc.defs_of(x)) for x in conj)
-    tests = [n for n in own_nodes(ch.node) if isinstance(n, ast.Assign) and
-             {_col_role(x, refs_names, slices_name) for x in ast.walk(n.value)} >= {"slice_start", "slice_end"}]
+    # the mask that decides what is kept: the one counted for the returned lengths
+    rets_ch = [r for r in own_nodes(ch.node) if isinstance(r, ast.Return) and isinstance(r.value, ast.Tuple) and len(r.value.elts) == 2]
+    sink = None
+    if rets_ch:
+        last_r = max(rets_ch, key=lambda r: r.lineno)
+        lens_e = last_r.value.elts[1]
+        for d in (rdc.defs_of(lens_e) if isinstance(lens_e, ast.Name) else ()):
+            if d.value is not None:
+                root = d.value
+                while isinstance(root, ast.Call) and isinstance(root.func, ast.Attribute):
+                    root = root.func.value
+                if isinstance(root, ast.Name):
+                    sink = root
     uncovered = []
-    for n in tests:
-        conj = []
-
-        def flat2(e):
-            if isinstance(e, ast.BinOp) and isinstance(e.op, ast.BitAnd):
-                flat2(e.left), flat2(e.right)
-            else:
-                conj.append(e)
-        flat2(n.value)
-        ok_ = any(isinstance(x, ast.Name) and rdc.defs_of(x) and all(_carries(d) for d in rdc.defs_of(x)) for x in conj) or _base(n.value)
-        if not ok_:
-            uncovered.append(n)
+    tests = [sink] if sink is not None else []
+    if sink is not None and not (rdc.defs_of(sink) and all(_carries(d) for d in rdc.defs_of(sink))):
+        uncovered.append(enclosing_stmt_(sink))
     if not tests:
-        col.undecided(f"{where}: no slice test (a conjunction over slice start and end) was recognised")
+        col.undecided(f"{where}: the mask counted for the returned lengths was not recognised")
     base_ok = base_ok and not uncovered
     col.ob("G12", "S4", f"{where}::missing-boundaries-excluded", base_ok,
            "tokens with a negative (missing) boundary or end < start are not excluded before the slice test on every path"
@@ -272,8 +282,10 @@ def run(ctx: Ctx):
             kind = kind_of(data)
             dd = rdw.defs_of(data)
             data_stmts = {id(d.stmt) for d in dd if d.kind == "unpack" and d.slot == (0,)}
-            lnames = [x for x in ast.walk(ln) if isinstance(x, ast.Name)]
-            len_defs = [d for x in lnames for d in rdw.defs_of(x) if d.kind == "unpack" and d.slot == (1,)]
+            from sa.inline import Inliner as _Inl2
+            inl_s = _Inl2(work.node, rdw)
+            lnames = [x for x in ast.walk(inl_s.expand(ln)) if isinstance(x, ast.Name)]  # `len_n = lens[n]` is looked through
+            len_defs = [d for x in lnames for d in inl_s.defs_of(x) if d.kind == "unpack" and d.slot == (1,)]
             len_stmts = {id(d.stmt) for d in len_defs}
             same_ok = bool(data_stmts & len_stmts)
             if not same_ok:
@@ -440,6 +452,8 @@ def _ref_policy(ctx: Ctx, sl):
                     raise AnalysisError("C10: torch.stack is not given the two bound vectors")
 
                 def sel(e):
+                    if isinstance(e, ast.Subscript):
+                        return e.value, e.slice
                     ds = list(rd.defs_of(e)) if isinstance(e, ast.Name) else []
                     if len(ds) == 1 and ds[0].kind == "assign" and isinstance(ds[0].value, ast.Subscript):
                         return ds[0].value.value, ds[0].value.slice
